@@ -40,6 +40,7 @@ pub fn no_header_decompress(in_data: &mut [u8], out_data: &mut [u8]) -> bool {
 
         let ret = inflate(&mut strm, Z_NO_FLUSH);
         if ret != Z_STREAM_END {
+            inflateEnd(&mut strm);
             return false;
         }
 
